@@ -319,7 +319,7 @@ def parse_tla_value(txt):
     return json.loads(txt)
 
 
-def graph_leg(name, module, tier_env, to_events, what, workers=8, mc_module=None):
+def graph_leg(name, module, tier_env, to_events, what, workers=8, mc_module=None, mc_env=None):
     """Returns a leg: records the function graph `name` from the real code, lets TLC enumerate the
     same domain (spec/mc/<module>) and turns every disagreement into replayable events."""
     def leg(ctx):
@@ -342,7 +342,8 @@ def graph_leg(name, module, tier_env, to_events, what, workers=8, mc_module=None
         cfg = os.path.join(SPEC, 'mc', module + '.cfg')
         # the spec-only laws (mc_module) and the graph comparison enumerate the same domain: run them side by side
         with cf.ThreadPoolExecutor(max_workers=2) as ex:
-            f0 = ex.submit(run_mc, mc_module, scratch, workers, 7200, (), env) if mc_module else None
+            env0 = dict(env, **(mc_env or {}).get(tier, {}))
+            f0 = ex.submit(run_mc, mc_module, scratch, workers, 7200, (), env0) if mc_module else None
             f1 = ex.submit(tlc, mod, cfg, scratch, env, workers, '12g', 7200, (), None, 4)
             r = f1.result()
             if f0:
